@@ -34,6 +34,10 @@ pub enum IppParseError {
     IoError(#[from] io::Error),
 }
 
+/// Maximum nesting depth of collections accepted by the parser. Values are cloned, dropped,
+/// encoded and displayed recursively, so unbounded nesting received from a peer would overflow the stack.
+const MAX_COLLECTION_DEPTH: usize = 128;
+
 // create a single value from one-element list, list otherwise
 fn list_or_value(mut list: Vec<IppValue>) -> IppValue {
     if list.len() == 1 {
@@ -108,6 +112,10 @@ impl ParserState {
                     error!("Invalid begin collection attribute");
                     return Err(IppParseError::InvalidCollection);
                 }
+            }
+            if self.context.len() > MAX_COLLECTION_DEPTH {
+                error!("Collections are nested too deeply");
+                return Err(IppParseError::InvalidCollection);
             }
             self.context.push(vec![]);
         } else if tag == ValueTag::EndCollection as u8 {
